@@ -937,6 +937,10 @@ func c15Run(t *testing.T, c *evid.Collector) {
 				{{K: "put", B: "bk0", Key: "d/x", Body: same, Meta: mt("first")}, {K: "reopen"}, {K: "head", B: "bk0", Key: "d/x"}, {K: "put", B: "bk0", Key: "d/x", Body: same, Meta: mt("second")}, {K: "reopen"}},
 				{{K: "put", B: "bk0", Key: "a", Body: same, Meta: mt("first")}, {K: "copy", B: "bk0", Key: "a", SB: "bk0", SKey: "a", Meta: mt("by-copy")}, {K: "reopen"}},
 				{{K: "put", B: "bk0", Key: "a", Body: same, Meta: mt("first")}, {K: "del", B: "bk0", Key: "a"}, {K: "put", B: "bk0", Key: "a", Body: same, Meta: mt("second")}, {K: "reopen"}, {K: "del", B: "bk0", Key: "a"}, {K: "reopen"}},
+				// a delete sent again after the key's place was taken: an (empty) object now stands where the key's
+				// directory was; the repeated delete finds nothing and leaves that object alone, across restarts
+				{{K: "put", B: "bk0", Key: "logs/app.log", Body: same}, {K: "del", B: "bk0", Key: "logs/app.log"}, {K: "put", B: "bk0", Key: "logs", Body: []byte{}, Meta: mt("marker")}, {K: "del", B: "bk0", Key: "logs/app.log"},
+					{K: "get", B: "bk0", Key: "logs"}, {K: "reopen"}, {K: "head", B: "bk0", Key: "logs"}, {K: "mdel", B: "bk0", Keys: []string{"logs/app.log", "logs/other/deeper"}}, {K: "list", B: "bk0"}, {K: "reopen"}},
 				// an object assembled from parts reads the same after a restart (nothing about it lives in the process only)
 				{{K: "init", B: "bk0", Key: "d/assembled", Meta: mt("first")}, {K: "part", Ref: 0, PartN: 1, Body: same}, {K: "part", Ref: 0, PartN: 2, Body: []byte("second part")}, {K: "complete", Ref: 0, Parts: []prog.Part{{N: 1}, {N: 2}}},
 					{K: "put", B: "bk0", Key: "plain", Body: same}, {K: "reopen"}, {K: "head", B: "bk0", Key: "d/assembled"}, {K: "list", B: "bk0"}, {K: "reopen"}},
